@@ -77,6 +77,13 @@ type Gen struct {
 	assumed         map[string]bool
 	errs            []string
 	modelVars       []ModelVar
+
+	// inlining of contract-less helpers (inline.go)
+	inl       *inlineCtx
+	inlReach  string
+	inlPrefix string
+	inlSeq    int
+	inlStack  map[*ssa.Function]bool
 }
 
 type ModelVar struct {
@@ -132,6 +139,7 @@ func (g *Gen) reset() {
 	g.lockSt = nil
 	g.interfered = map[string]bool{}
 	g.frameStructural = map[string]bool{}
+	g.inl, g.inlReach, g.inlPrefix, g.inlSeq, g.inlStack = nil, "", "", 0, nil
 }
 
 func (g *Gen) note(format string, a ...interface{}) {
@@ -175,7 +183,9 @@ func (g *Gen) define(prefix string, so *Sort, term string) string {
 	g.nfresh++
 	name := fmt.Sprintf("|%s!%d|", strings.Trim(prefix, "|"), g.nfresh)
 	g.declared[name] = true
-	if strings.HasPrefix(so.Name, "(Array") {
+	if strings.HasPrefix(so.Name, "(Array") || (so.Name == "Slice" && strings.Contains(term, "(ite ")) {
+		// (a slice chosen by a condition -- the result of append -- too: as a macro it would put an
+		// ite into every quantifier pattern over its elements, which the solvers reject)
 		// heaps are real constants (not macros) so that they can appear in quantifier patterns
 		g.emit(fmt.Sprintf("(declare-const %s %s)", name, so.Name))
 		g.emit(fmt.Sprintf("(assert (= %s %s))", name, term))
